@@ -331,27 +331,32 @@ def run_ibi(case, ctx, d):
     # undefined points: last valid value met when walking outward from the maximum of g_cur (0 before any valid one)
     cmax = c.max()
     cands = [int(j) for j in np.nonzero(c == cmax)[0]] if cmax > 0 else [0]
+    if len(cands) > 16:  # plateau: first, last and a sample of the tied positions
+        cands = sorted(set([cands[0], cands[-1]] + cands[::max(1, len(cands) // 14)]))
     vidx = np.nonzero(valid)[0]
     ambiguous = False
-    for i in np.nonzero(~valid)[0]:
-        acc = set()
-        for m in cands:
-            if i >= m:
-                js = vidx[(vidx >= m) & (vidx < i)]
-                acc.add(float(dU[js[-1]]) if len(js) else 0.0)
+    acc = [set() for _ in range(n)]
+    for m in cands:
+        val = 0.0
+        for i in range(m, n):
+            if valid[i]:
+                val = float(dU[i])
             else:
-                js = vidx[(vidx > i) & (vidx <= m - 1)]
-                if len(js):
-                    acc.add(float(dU[js[0]]))
-                else:
-                    acc.add(0.0)  # the script restarts from 0 left of the maximum ...
-                    if valid[m]:
-                        acc.add(float(dU[m]))  # ... a reader of the statement may also expect the value at the maximum
-                        ambiguous = True
-        if not any(abs(got[i] - v) <= 1e-14 * abs(v) + 1e-15 * k for v in acc):
-            return r.fail("update_ibi_pot/continuation", f"x={xs[i]} (undefined point): got {got[i]!r}, acceptable {sorted(acc)}")
+                acc[i].add(val)
+        val, seen = 0.0, False
+        for i in range(m - 1, -1, -1):
+            if valid[i]:
+                val, seen = float(dU[i]), True
+            else:
+                acc[i].add(val)  # the script restarts from 0 left of the maximum ...
+                if not seen and valid[m]:
+                    acc[i].add(float(dU[m]))  # ... a reader of the statement may also expect the value at the maximum
+                    ambiguous = True
+    for i in np.nonzero(~valid)[0]:
+        if not any(abs(got[i] - v) <= 1e-14 * abs(v) + 1e-15 * k for v in acc[i]):
+            return r.fail("update_ibi_pot/continuation", f"x={xs[i]} (undefined point): got {got[i]!r}, acceptable {sorted(acc[i])}")
     nu = int((~valid).sum())
-    r.nontrivial = nu > 0 and len(vidx) > 0 and not case["same"]
+    r.nontrivial = nu > 0 and len(vidx) > 0
     size_cls(r, n)
     if case["same"]:
         r.cls("identical-inputs")
@@ -400,13 +405,11 @@ def run_boltz(case, ctx, d):
     dist_min = 1e-10 if case["min"] is None else float(case["min"])
     raw = eval_positive(case["fn"], x)
     ys = []
-    for v in raw:
+    for i, v in enumerate(raw):
         s = fmt(v)
-        if s != "0" and float(s) < 10 * dist_min and case["min"] is not None:
-            # clearly below the user threshold (never within a factor 10 of it)
-            s = fmt(float(s) * 1e-3 if float(s) * 1e-3 >= 1e-6 else 0.0)
-            if s != "0" and float(s) >= dist_min / 10:
-                s = "0"
+        if s != "0" and case["min"] is not None and float(s) < 10 * dist_min:
+            # never within a factor 10 of the user threshold: clearly below it (min/100) or exactly 0
+            s = fmt(dist_min / 100) if i % 2 else "0"
         ys.append(s)
     ys = apply_zero_regions(ys, case["zr"])
     fin = make_flags(n, case["flags"])
@@ -459,11 +462,12 @@ def run_boltz(case, ctx, d):
     with np.errstate(all="ignore"):
         pot = np.where(defined, -k * np.log(np.where(defined, y, 1.0) / norm), 0.0)
     di = np.nonzero(defined)[0]
-    cst = got[di[0]] - pot[di[0]]  # the statement allows an additive constant
-    tol = 1e-14 * (np.abs(pot) + abs(cst)) + 1e-15 * k
+    ref = di[int(np.argmin(np.abs(pot[di])))]
+    cst = got[ref] - pot[ref]  # the statement allows an additive constant; taken at the point of smallest |F|
+    tol = 1e-14 * (np.abs(pot) + abs(pot[ref]) + abs(cst)) + 1e-15 * k
     if not cmp_vals(r, "dist_boltzmann_invert/value", got[di] - cst, pot[di], tol[di], [xs[i] for i in di], "F"):
         return r
-    r.cls("constant-is-zero" if abs(cst) <= tol[di[0]] else "constant-nonzero")
+    r.cls("constant-is-zero" if abs(cst) <= tol[ref] else "constant-nonzero")
     # undefined runs: continued with a neighbouring value
     i = 0
     nruns = 0
@@ -501,8 +505,10 @@ def run_boltz(case, ctx, d):
 
 
 ST_BOLTZ = st.fixed_dictionaries(dict(
-    grid=st_grid(lo=3, i0lo=-20), fn=st_fn(POSITIVE), zr=st_zr, flags=st_flags, kT=st_num(10, 1000, 100),
-    type=st.sampled_from(["non-bonded", "bond", "angle", "dihedral"]), explicit_type=st.booleans(),
+    grid=st.fixed_dictionaries(dict(n=st.one_of(st.integers(3, 14), st.integers(12, 80), st.integers(12, 400), st.integers(12, 1000)),
+                                    hs=st.integers(0, len(H) - 1), i0=st.integers(-20, 20))),
+    fn=st_fn(POSITIVE), zr=st.lists(st.tuples(st.integers(0, 999), st.integers(0, 150)), max_size=3), flags=st_flags,
+    kT=st_num(10, 1000, 100), type=st.sampled_from(["non-bonded", "bond", "angle", "dihedral"]), explicit_type=st.booleans(),
     min=st.sampled_from([None, None, "1e-10", "0.001", "0.01", "0.3"]), deco=st_deco))
 
 
@@ -597,7 +603,7 @@ def run_combine(case, ctx, d):
             for i in range(n):
                 if rs.uniform() < 0.3:
                     v = float(y1s[i])
-                    y2s[i] = fmt(v * 1.5 + (1.0 if v == 0 else 0.0))
+                    y2s[i] = fmt(v + max(0.5 * abs(v), 1.0))  # |difference| >= 1 and relative difference >= 1/3
     flagmis = case["flagmis"] and n > 0
     if flagmis:
         j = case["eqseed"] % n
@@ -670,13 +676,22 @@ def run_combine(case, ctx, d):
         r.cls("withflag")
     if dosum:
         r.cls("sum")
-        lines = [ln for ln in out.strip().splitlines() if ln.strip() and not ln.startswith("Use of uninit")]
-        try:
-            got = float(lines[-1])
-        except (ValueError, IndexError):
+        got = None
+        for ln in reversed(out.strip().splitlines()):
+            try:
+                got = float(ln.strip())
+                break
+            except ValueError:
+                continue
+        if got is None:
             return r.fail("table_combine/sum-output", f"no number printed: {out[-300:]}")
+        if op == "=":  # only 'no difference <=> 0' is documented
+            differ = bool((v[sel] != 0).any())
+            if differ != (got != 0):
+                return r.fail("table_combine/sum-eq", f"tables {'differ' if differ else 'are equal'} but --sum prints {got!r}")
+            return r
         exp = float(np.sum(v[sel]))
-        tol = 2.3e-16 * (n + 4) * float(np.sum(np.abs(v[sel]))) + 2e-14 * float(np.sum(mag[sel])) / max(1, 1) * 1.0 + 1e-300
+        tol = 2.3e-16 * (n + 4) * float(np.sum(np.abs(v[sel]))) + 2e-14 * float(np.sum(mag[sel])) + 1e-300
         if not abs(got - exp) <= tol:
             return r.fail("table_combine/sum", f"--sum --op {op}: got {got!r} expected {exp!r} tol {tol:.3g}")
         return r
@@ -693,8 +708,12 @@ def run_combine(case, ctx, d):
     if rows is None:
         return r
     got = np.array([fl(p[1]) for p in rows])
-    if not cmp_vals(r, "table_combine/value", got[sel], v[sel], 2e-14 * mag[sel], [xs[i] for i in np.nonzero(sel)[0]]):
+    if op == "=":  # only 'entry equal <=> 0' is documented
+        bad = (got[sel] != 0) != (v[sel] != 0)
+        if bad.any():
+            return r.fail("table_combine/eq-table", f"{int(bad.sum())} entries misclassified by --op =")
         return r
+    cmp_vals(r, "table_combine/value", got[sel], v[sel], 2e-14 * mag[sel], [xs[i] for i in np.nonzero(sel)[0]])
     return r
 
 
@@ -1145,7 +1164,8 @@ def run_intdiff(case, ctx, d):
         if not cmp_vals(r, "csg_resample/same-grid-not-identity", G, f, 1e-9 * fmax + 1e-12, xs, "f"):
             return r
         rc, out = run_perl(ctx, d, "table_integrate.pl", ["--from", frm, "D.tab", "F.tab"])
-        rowsF = common_out(r, "table_integrate", rc, out, f"{d}/F.tab", 3, None or [p for p in open(f"{d}/D.tab").read().split()[0::3]], fin)
+        rowsD, _ = parse_table(f"{d}/D.tab", 3)
+        rowsF = common_out(r, "table_integrate", rc, out, f"{d}/F.tab", 3, [p[0] for p in rowsD], fin)
         if rowsF is None:
             return r
         F = np.array([fl(p[1]) for p in rowsF])
